@@ -450,3 +450,58 @@ pub proof fn lemma_rank_vs_end_conv(c: Cur, lens: Seq<int>, tt: int, rt: int)
         assert(x * m + v >= y * m) by (nonlinear_arith) requires y <= x, 0 <= v < m;
     }
 }
+
+// ---------- C10: every yielded probability lies in [0, 1] ----------
+
+/// weight in [0, 1] (floats are opaque to Verus)
+pub uninterp spec fn unit_interval(p: f32) -> bool;
+
+/// IMPORTED FACT, proved by Kani over all of binary32 (harness c10_f32_product_unit_interval, which is part of
+/// the C10 check): 1.0 is in [0,1] and the f32 product of two weights in [0,1] is in [0,1]
+pub axiom fn axiom_unit_interval_mul(a: f32, b: f32)
+    requires unit_interval(a), unit_interval(b),
+    ensures unit_interval(f32_mul_spec(a, b));
+
+pub axiom fn axiom_unit_interval_one()
+    ensures unit_interval(1.0f32);
+
+/// the left fold of f32 products over the chosen combos' weights stays in [0, 1]
+pub proof fn lemma_prob_unit(g: Game, c: Cur, n: int)
+    requires 0 <= n <= g.entries.len(), idx_ok(c.idx, lens_of(g.entries)),
+        forall|i: int, k: int| 0 <= i < g.entries.len() && 0 <= k < g.entries[i].len() ==> unit_interval((#[trigger] g.entries[i][k]).1),
+    ensures unit_interval(prob_at(g, c, n)),
+    decreases n
+{
+    if n <= 0 {
+        axiom_unit_interval_one();
+    } else {
+        lemma_prob_unit(g, c, n - 1);
+        assert(0 <= c.idx[n - 1] < lens_of(g.entries)[n - 1]);
+        let w = g.entries[n - 1][c.idx[n - 1]];
+        assert(unit_interval(w.1));
+        axiom_unit_interval_mul(prob_at(g, c, n - 1), w.1);
+    }
+}
+
+pub open spec fn weights_valid(e: FlopExhaustiveEvaluator) -> bool {
+    forall|i: int, cp: CardPair| 0 <= i < e.players@.len() && #[trigger] e.players@[i].0@.contains_key(cp) ==> unit_interval(e.players@[i].0@[cp])
+}
+
+/// C10, consequence for showdowns: if every weight of every range is in [0,1], so is the probability of every
+/// showdown of a run (and by lemma_legal_distinct no showdown contains a card twice)
+pub proof fn lemma_run_probabilities(e: FlopExhaustiveEvaluator, it0: FlopExhaustiveEvaluatorIterator, out: Seq<Showdown>, cs: Seq<Cur>)
+    requires run_is_enumeration(e, it0, out, cs), weights_valid(e),
+    ensures forall|i: int| 0 <= i < out.len() ==> unit_interval((#[trigger] out[i]).probability),
+{
+    let g = game_of(it0);
+    assert forall|i: int, k: int| 0 <= i < g.entries.len() && 0 <= k < g.entries[i].len() implies unit_interval((#[trigger] g.entries[i][k]).1) by {
+        assert(is_listing(it0.player_entries@[i]@, e.players@[i].0@));
+        assert(g.entries[i] == it0.player_entries@[i]@);
+        let en = it0.player_entries@[i]@[k];
+        assert(e.players@[i].0@.contains_key(en.0) && e.players@[i].0@[en.0] == en.1);
+    }
+    assert forall|i: int| 0 <= i < out.len() implies unit_interval((#[trigger] out[i]).probability) by {
+        let c = cs[i];
+        lemma_prob_unit(g, c, g.entries.len() as int);
+    }
+}
